@@ -239,3 +239,42 @@ func specUnsizedMem66(p *ParsedOperandPeg, mode int) bool {
 //@ requires[A2] specMemsValid(o)
 //@ loop 0 invariant[none] forall(0, iter, func(j int) bool { return !specCode66(o.parsedOperands[j], int(o.bitMode)) })
 //@ ensures[prefix] result0 == exists(0, len(o.parsedOperands), func(j int) bool { return specOp66(o.parsedOperands[j], int(o.bitMode)) })
+
+// Thin safety-only contracts (C13): these functions get one obligation per panic site; callers keep
+// using their bodies (option inline).
+
+//@ func (*OperandPegImpl).DisplacementBytes
+//@ props C13
+//@ option inline
+//@ requires o != nil
+//@ ensures[safe] true
+
+//@ func (*OperandPegImpl).DetectImmediateSize
+//@ props C13
+//@ option inline
+//@ requires o != nil
+//@ ensures[safe] true
+
+//@ func (*OperandPegImpl).GetMemoryInfo
+//@ props C13
+//@ option inline
+//@ requires o != nil
+//@ ensures[safe] true
+
+//@ func (*OperandPegImpl).IsType
+//@ props C13
+//@ option inline
+//@ requires o != nil
+//@ ensures[safe] true
+
+//@ func (*OperandPegImpl).ImmediateValueFitsIn8Bits
+//@ props C13
+//@ option inline
+//@ requires o != nil
+//@ ensures[safe] true
+
+//@ func (*OperandPegImpl).IsControlRegisterOperation
+//@ props C13
+//@ option inline
+//@ requires o != nil
+//@ ensures[safe] true
